@@ -15,8 +15,10 @@ import (
 	"runtime/debug"
 	"sort"
 	"strings"
+	"time"
 
 	"github.com/gookit/rux"
+	"github.com/gookit/rux/pkg/handlers"
 )
 
 // family "pool": binds RuxPool (spec/RuxPool.tla) to the pooled contexts of a real router.
@@ -49,6 +51,7 @@ type poolObs struct {
 	Length  int
 	Resp    string
 	Req     string
+	Accept  string // what AcceptedTypes() says: "own" = the types of THIS request's Accept header
 	// mutation "nested": what the handler finds in its context after it served another request on the same router
 	AfterNested string
 }
@@ -144,6 +147,10 @@ func newPoolRouter(hook, caching bool) *poolRouter {
 				o.App = "written by the router"
 			}
 		}
+		o.Accept = "own"
+		if at := c.AcceptedTypes(); len(at) != 2 || at[0] != "text/x-req" || at[1] != "application/json" {
+			o.Accept = fmt.Sprintf("other%v", at)
+		}
 		o.Query = "own"
 		if qv := c.QueryValues(); c.Query("token") != "t" || len(qv["limit"]) != 0 || len(qv) != 1 {
 			o.Query = fmt.Sprintf("dirty%v", qv)
@@ -201,6 +208,17 @@ func newPoolRouter(hook, caching bool) *poolRouter {
 				// a middleware wraps the writer for its request; the handler hands a copy of the context to a background job
 				c.Resp = &tagWriter{ResponseWriter: c.Resp, tag: "[job]"}
 				pr.copies = append(pr.copies, c.Copy())
+			case "linger":
+				// the handler takes its time; what it finds in its context afterwards is still what IT put there
+				time.Sleep(40 * time.Millisecond)
+				ks := []string{}
+				for k := range c.Data() {
+					if !strings.HasPrefix(k, "_") {
+						ks = append(ks, k)
+					}
+				}
+				sort.Strings(ks)
+				pr.obs.AfterNested = fmt.Sprintf("after a pause: data %v errors %d length %d", ks, len(c.Errors), c.Length())
 			case "nested":
 				// the handler serves another request on the same router (a sub-request) and goes on with its own context
 				pr.nesting = true
@@ -226,6 +244,13 @@ func newPoolRouter(hook, caching bool) *poolRouter {
 	r.GET("/o[.html]", func(c *rux.Context) { c.WriteString("o") }) // matched by regex, no variables
 	r.POST("/p", func(c *rux.Context) {})
 	r.GET("/boom", boom)
+	// a slow handler behind the library's Timeout middleware: it overruns the deadline and goes on using its context
+	r.GET("/slow", func(c *rux.Context) {
+		time.Sleep(15 * time.Millisecond)
+		c.Set("late", 1)
+		c.AddError(errors.New("late"))
+		c.WriteString("SLOW")
+	}, handlers.Timeout(2*time.Millisecond))
 	// a handler that re-dispatches its request (Router.HandleContext) to a static route / to the panicking route, behind a
 	// route-level recover middleware
 	recoverMw := func(c *rux.Context) {
@@ -266,7 +291,7 @@ func (poolRenderer) Render(w io.Writer, name string, _ any, _ *rux.Context) erro
 
 func (pr *poolRouter) serve(q *poolReq) (obs *poolObs, code int, body string) {
 	path := map[string]string{"static": "/s", "dynamic": "/d/7", "optional": "/o", "render": "/r", "notfound": "/missing", "notallowed": "/p", "panic": "/boom",
-		"panichook": "/boom", "foreign": "/s", "redispatch": "/rd", "redispanic": "/rp"}[q.Kind]
+		"panichook": "/boom", "foreign": "/s", "redispatch": "/rd", "redispanic": "/rp", "slowtimeout": "/slow"}[q.Kind]
 	w := httptest.NewRecorder()
 	var rw http.ResponseWriter = w
 	for _, m := range q.Muts {
@@ -274,7 +299,7 @@ func (pr *poolRouter) serve(q *poolReq) (obs *poolObs, code int, body string) {
 			rw = &hijackableRecorder{w}
 		}
 	}
-	req := &http.Request{Method: "GET", URL: &url.URL{Path: path, RawQuery: "token=t"}, Header: http.Header{}, Proto: "HTTP/1.1"}
+	req := &http.Request{Method: "GET", URL: &url.URL{Path: path, RawQuery: "token=t"}, Header: http.Header{"Accept": {"text/x-req, application/json;q=0.8"}}, Proto: "HTTP/1.1"}
 	pr.cur, pr.obs, pr.w, pr.req = q, nil, rw, req
 	func() {
 		defer func() { _ = recover() }()
@@ -302,6 +327,21 @@ var poolRepeated bool
 // only after several requests of one kind), then one request of every kind, compared with the fresh twin
 func poolRepeat(s *Summary) {
 	kinds := []string{"static", "dynamic", "optional", "render", "notfound", "notallowed", "panic", "panichook", "redispatch", "redispanic"}
+	{
+		// a request whose handler overran the deadline of the Timeout middleware, then a request that takes its time: when
+		// ServeHTTP has returned, nothing of the first request is still running on the context
+		pv := newPoolRouter(false, false)
+		pv.serve(&poolReq{Kind: "slowtimeout"})
+		last := poolReq{Kind: "static", Muts: []string{"linger"}}
+		o2, c2, b2 := pv.serve(&last)
+		o3, c3, b3 := newPoolRouter(false, false).serve(&last)
+		s.Compared++
+		if (o2 == nil) != (o3 == nil) || (o2 != nil && !reflect.DeepEqual(*o2, *o3)) || c2 != c3 || b2 != b3 {
+			s.mismatch(map[string]any{"kind": "pool", "aspect": "pristine", "what": fmt.Sprintf(
+				"history: a request whose handler overruns the deadline of handlers.Timeout, then a request that takes 40 ms: the last request observed %+v -> %d %q; on a fresh identical router %+v -> %d %q",
+				o2, c2, b2, o3, c3, b3)}, nil)
+		}
+	}
 	for _, hook := range []bool{false, true} {
 		for _, x := range kinds {
 			for _, y := range kinds {
@@ -405,7 +445,7 @@ func poolReplay(s *Summary, raw json.RawMessage) {
 	// against the model
 	want := poolObs{Params: c.Expect["params"].(string), Errors: int(c.Expect["errors"].(float64)), Aborted: c.Expect["aborted"].(bool),
 		Status: int(c.Expect["status"].(float64)), Length: int(c.Expect["length"].(float64)), Resp: c.Expect["resp"].(string), Req: c.Expect["req"].(string),
-		Router: c.Expect["router"].(string), Query: c.Expect["query"].(string), App: "own"}
+		Router: c.Expect["router"].(string), Query: c.Expect["query"].(string), App: "own", Accept: c.Expect["accept"].(string)}
 	for _, k := range c.Expect["data"].([]any) {
 		want.Data = append(want.Data, k.(string))
 	}
